@@ -1727,19 +1727,45 @@ func c10encoder(p *Prog, enc *ssa.Function, fRx, fAuto *types.Var) c10codec {
 	}
 	var numeric, lits []src
 	rxDependent := 0
-	for _, ci := range callsIn(enc, func(ci ssa.CallInstruction) bool { return c10headerCall(ci, "Set") || c10headerCall(ci, "Add") }) {
-		args := ci.Common().Args
-		if len(args) != 3 {
-			continue
+	// header writes of the encoder: direct Set/Add calls, plus those a repository
+	// helper performs with one of its parameters as the value (summarised at the call)
+	type hdrWrite struct {
+		keyV, val ssa.Value
+		blk       *ssa.BasicBlock
+	}
+	var writes []hdrWrite
+	isHdr := func(ci ssa.CallInstruction) bool { return c10headerCall(ci, "Set") || c10headerCall(ci, "Add") }
+	for _, ci := range callsIn(enc, isHdr) {
+		if args := ci.Common().Args; len(args) == 3 {
+			writes = append(writes, hdrWrite{args[1], args[2], ci.Block()})
 		}
-		key, keyOK := constString(args[1])
+	}
+	for _, hc := range callsIn(enc, func(ci ssa.CallInstruction) bool {
+		g := staticCallee(ci)
+		return g != nil && fnPkg(g) != nil && isRepoPath(fnPkg(g).Pkg.Path()) && !isHdr(ci)
+	}) {
+		g := staticCallee(hc)
+		for _, inner := range callsIn(g, isHdr) {
+			ia := inner.Common().Args
+			if len(ia) != 3 {
+				continue
+			}
+			for j, prm := range g.Params {
+				if resolve(ia[2]) == ssa.Value(prm) && j < len(hc.Common().Args) {
+					writes = append(writes, hdrWrite{ia[1], hc.Common().Args[j], hc.Block()})
+				}
+			}
+		}
+	}
+	for _, w := range writes {
+		key, keyOK := constString(w.keyV)
 		var srcs []src
-		if ph, ok := args[2].(*ssa.Phi); ok {
+		if ph, ok := w.val.(*ssa.Phi); ok {
 			for i, e := range ph.Edges {
 				srcs = append(srcs, src{resolve(e), ph.Block().Preds[i], ph.Block(), key})
 			}
 		} else {
-			srcs = []src{{resolve(args[2]), ci.Block(), nil, key}}
+			srcs = []src{{resolve(w.val), w.blk, nil, key}}
 		}
 		for _, sc := range srcs {
 			if call, ok := sc.v.(*ssa.Call); ok && len(call.Call.Args) >= 1 && isLoadOfField(c10convOnly(call.Call.Args[0]), fRx) {
@@ -1772,6 +1798,23 @@ func c10encoder(p *Prog, enc *ssa.Function, fRx, fAuto *types.Var) c10codec {
 		return out
 	}
 	if len(numeric) == 0 && rxDependent == 0 {
+		// the header write may have been moved into a repository helper that
+		// receives the formatted value: not followed, hence undecided rather than wrong
+		viaHelper := ""
+		for _, ci := range callsIn(enc, func(ci ssa.CallInstruction) bool {
+			g := staticCallee(ci)
+			return g != nil && fnPkg(g) != nil && isRepoPath(fnPkg(g).Pkg.Path())
+		}) {
+			for _, a := range ci.Common().Args {
+				if c10dependsOnField(a, fRx) {
+					viaHelper = staticCallee(ci).Name()
+				}
+			}
+		}
+		if viaHelper != "" {
+			out.undecided = enc.Name() + ": the Rx value is handed to helper " + viaHelper + "; header writes inside helpers are not followed"
+			return out
+		}
 		out.bad = enc.Name() + ": Rx is never written to a header"
 		return out
 	}
